@@ -73,7 +73,7 @@ def proto_correspondence(chk, suite, scs, obs):
         # executed log of the model == user-function log of the implementation
         impl_log = [c[5] for c in o.get('calls', []) if c[0] == opi and c[1] == 'task']
         model_log = [int(x) for x in f['log'].split(',') if x]
-        impl_log = [-1 if x is None else x for x in impl_log]
+        impl_log = [x if isinstance(x, int) and not isinstance(x, bool) else -1 for x in impl_log]
         if sorted(impl_log) != sorted(model_log):
             chk.mismatch(suite + ': executed tasks differ', {'scenario': sc, 'op': opi}, sorted(impl_log)[:50], sorted(model_log)[:50])
     return len(lines)
